@@ -61,6 +61,8 @@ CONSTANTS Names,        \* set of strings: component names
           MaxRefs,      \* references per component
           MaxSame,      \* references of one component to the SAME producer (they differ in file path, method or spelling)
           PrivChoices,  \* subset of 0..3: value v > 0 = the component defines rg, rs, rc = v (and ag = "v is odd") privately
+          OvrPrivChoices, \* subset of 0..3: value v > 0 = the component's OVERRIDE for platform "other" defines rg = rs = rc = v
+                        \*                (and ag = "v is odd"): the highest-priority scope, only visible when "other" is loaded
           AggVarChoices,\* subset of BOOLEAN: TRUE = the aggregate flag is given through the variable `ag`
           StageVals0,   \* subset of 0..3: value v > 0 = the stage-0 scope defines rs = v (and ag = "v is odd")
           StageVals1,   \*   "  for the stage-1 scope
@@ -74,7 +76,7 @@ CONSTANTS Names,        \* set of strings: component names
                         \*       (shape slices: no permutations of interchangeable names)
           Emit          \* TRUE: print every expanded state as JSON for the conformance driver
 
-VARIABLES comps,    \* Seq of [name, stage, rep, agg, refs, priv, aggv]; refs: Seq of [p, sp, path, m, st]
+VARIABLES comps,    \* Seq of [name, stage, rep, agg, refs, priv, aggv, opriv]; refs: Seq of [p, sp, path, m, st]
           svals,    \* <<v0, v1, plat, pg, ps0, ps1, mst>> chosen in Init (0 = nothing): what the stage-0 / stage-1 scopes of the default
                     \* platform define, the platform loaded, what platform "other" defines globally and in its two stage scopes
           phase,    \* "build" | "expanded"
@@ -86,6 +88,7 @@ rvars == <<comps, svals, phase, order, out>>
 (* Variables through which a replica count (rg, rs, rc) or the aggregate flag (ag) may be given, and the documented     *)
 (* layering (the one of spec/Layering.tla, which instance() / get_component_variables implement), lowest priority first: *)
 (*     default global < default stage < selected-platform global < selected-platform stage < the component's own         *)
+(*     < the component's override for the selected platform                                                              *)
 (* A component sees its OWN variables, then those of its OWN stage, then the global ones; a GLOBAL definition of the      *)
 (* selected platform beats a STAGE definition of the default platform.  Nothing a component or a stage defines is visible *)
 (* to a sibling component, to another stage or to the global scope, and what platform "other" defines is invisible when   *)
@@ -96,6 +99,8 @@ rvars == <<comps, svals, phase, order, out>>
 (*   other stage s:   rs = v and ag = odd(v) when svals[5 + s] = v > 0                                                    *)
 (*   component scope: rg = rs = rc = v and ag = odd(v) when the component's priv = v > 0; a component with rep = "vc"     *)
 (*                    defines rc = 2 itself.  Siblings (same or other stage) may define other values: they must not leak. *)
+(*   override scope:  rg = rs = rc = v and ag = odd(v) when the component's opriv = v > 0 AND platform "other" is loaded  *)
+(*                    (`override: {other: {variables: ...}}`; a decoy when the default platform is loaded)               *)
 GlobalScope == [v \in {"rg", "rs", "rc"} |-> IF v = "rg" THEN 2 ELSE 3]
 StageVal(s) == svals[s + 1]
 OnOther == svals[3] = 1
@@ -107,14 +112,16 @@ PlatStageScope(s) == IF PlatStageVal(s) > 0 THEN [v \in {"rs"} |-> PlatStageVal(
 CompScope(rep, pv) == [v \in (IF pv > 0 THEN {"rg", "rs", "rc"} ELSE {}) \cup (IF rep = "vc" THEN {"rc"} ELSE {}) |->
                          IF v = "rc" /\ rep = "vc" THEN 2 ELSE pv]
 VarOf(rep) == CASE rep = "vg" -> "rg" [] rep = "vs" -> "rs" [] rep = "vc" -> "rc"
-Lookup(v, s, rep, pv) == IF v \in DOMAIN CompScope(rep, pv) THEN CompScope(rep, pv)[v]
+Lookup(v, s, rep, pv, ov) == IF OnOther /\ ov > 0 THEN ov
+                         ELSE IF v \in DOMAIN CompScope(rep, pv) THEN CompScope(rep, pv)[v]
                          ELSE IF v \in DOMAIN PlatStageScope(s) THEN PlatStageScope(s)[v]
                          ELSE IF v \in DOMAIN PlatGlobalScope THEN PlatGlobalScope[v]
                          ELSE IF v \in DOMAIN StageScope(s) THEN StageScope(s)[v]
                          ELSE GlobalScope[v]
 Odd(v) == v % 2 = 1
 (* the value of the variable `ag` a component of stage s with private value pv sees (same layering) *)
-AgLookup(s, pv) == IF pv > 0 THEN Odd(pv)
+AgLookup(s, pv, ov) == IF OnOther /\ ov > 0 THEN Odd(ov)
+                   ELSE IF pv > 0 THEN Odd(pv)
                    ELSE IF PlatStageVal(s) > 0 THEN Odd(PlatStageVal(s))
                    ELSE IF PlatGlobalVal > 0 THEN Odd(PlatGlobalVal)
                    ELSE IF StageVal(s) > 0 THEN Odd(StageVal(s)) ELSE FALSE
@@ -125,7 +132,7 @@ OwnCount(c) == CASE c.rep = "none" -> 0
                  [] c.rep = "n2" -> 2
                  [] c.rep = "n3" -> 3
                  [] c.rep = "n11" -> 11      \* two-digit suffixes: copies 10 and 11 sort before 2 as strings
-                 [] OTHER -> Lookup(VarOf(c.rep), c.stage, c.rep, c.priv)
+                 [] OTHER -> Lookup(VarOf(c.rep), c.stage, c.rep, c.priv, c.opriv)
 
 ---------------------------------------------------------------------------
 (* Building the workflow *)
@@ -141,13 +148,13 @@ Rank(n) == CASE n = "p" -> 1 [] n = "q" -> 2 [] n = "r" -> 3 [] n = "s" -> 4 [] 
 
 (* an aggregating component never asks for replicas itself (outside the family: the property does not say what it means) *)
 (* `agg` is the EFFECTIVE flag: when it is given through the variable (av) it is what the scoping rules resolve `ag` to *)
-AddComponent(n, s, r, g, pv, av) ==
+AddComponent(n, s, r, g, pv, av, ov) ==
     /\ phase = "build" /\ Len(comps) < MaxComps
     /\ ~ \E i \in 1..Len(comps) : comps[i].name = n /\ comps[i].stage = s     \* identifiers (stage, name) are unique
     /\ g => r = "none"
-    /\ av => g = AgLookup(s, pv)
+    /\ av => g = AgLookup(s, pv, ov)
     /\ FixedNames => Rank(n) = Len(comps) + 1
-    /\ comps' = Append(comps, [name |-> n, stage |-> s, rep |-> r, agg |-> g, refs |-> <<>>, priv |-> pv, aggv |-> av])
+    /\ comps' = Append(comps, [name |-> n, stage |-> s, rep |-> r, agg |-> g, refs |-> <<>>, priv |-> pv, aggv |-> av, opriv |-> ov])
     /\ UNCHANGED <<svals, phase, order, out>>
 
 (* the newest component gets one more reference, to a component built earlier that lives in the same or an earlier stage *)
@@ -263,8 +270,8 @@ Expand(o) == /\ phase = "build" /\ WellFormed(comps)
              /\ out' = Expansion(comps)
              /\ UNCHANGED <<comps, svals>>
 
-Next == \/ \E n \in Names, s \in Stages, r \in RepChoices, g \in AggChoices, pv \in PrivChoices, av \in AggVarChoices :
-              AddComponent(n, s, r, g, pv, av)
+Next == \/ \E n \in Names, s \in Stages, r \in RepChoices, g \in AggChoices, pv \in PrivChoices, av \in AggVarChoices,
+              ov \in OvrPrivChoices : AddComponent(n, s, r, g, pv, av, ov)
         \/ \E p \in 1..MaxComps, sp \in Spellings, pa \in Paths, m \in Methods, st \in ArgStyles : AddRef(p, sp, pa, m, st)
         \/ \E o \in DocOrders : Expand(o)
 
@@ -365,7 +372,7 @@ CRef(r) == <<r.stage, r.name, r.path, r.m>>
 CArg(a) == <<a.kind, a.stage, a.name, a.path, a.m, a.tail>>
 CNode(nd) == [s |-> nd.stage, n |-> nd.name, b |-> nd.base, i |-> nd.idx, c |-> nd.cnt, g |-> nd.agg,
               r |-> [k \in 1..Len(nd.refs) |-> CRef(nd.refs[k])], a |-> [k \in 1..Len(nd.args) |-> CArg(nd.args[k])]]
-CComp(c) == [n |-> c.name, s |-> c.stage, rep |-> c.rep, g |-> c.agg, pv |-> c.priv, av |-> c.aggv,
+CComp(c) == [n |-> c.name, s |-> c.stage, rep |-> c.rep, g |-> c.agg, pv |-> c.priv, av |-> c.aggv, ov |-> c.opriv,
              r |-> [k \in 1..Len(c.refs) |-> <<c.refs[k].p, c.refs[k].sp, c.refs[k].path, c.refs[k].m, c.refs[k].st>>]]
 EmitCase == (Emit /\ Done) =>
               PrintT(ToJson([comps |-> [c \in 1..Len(comps) |-> CComp(comps[c])], order |-> order, sv |-> svals, status |-> out.status,
